@@ -309,11 +309,11 @@ static void mi_heap_free(mi_heap_t* heap) {
 
 // return a heap on the same thread as `heap` specialized for the specified tag (if it exists)
 mi_heap_t* _mi_heap_by_tag(mi_heap_t* heap, uint8_t tag) {
-  if (heap->tag == tag) {
+  if (heap->tag == tag && !heap->no_reclaim) {
     return heap;
   }
   for (mi_heap_t *curr = heap->tld->heaps; curr != NULL; curr = curr->next) {
-    if (curr->tag == tag) {
+    if (curr->tag == tag && !curr->no_reclaim) {   // never reclaim into a heap that can be destroyed
       return curr;
     }
   }
